@@ -5,6 +5,7 @@ package main
 // a reference model written from the statement (must-deliver / must-not-deliver / either).
 
 import (
+	"bytes"
 	"fmt"
 	"math/rand"
 	"sort"
@@ -671,6 +672,52 @@ func histSummary(h c15hist) string {
 func unitC15(e common.Env, p *common.Part) {
 	p.Rule = "histories (receive bursts, first Sends, epoch ticks, GC-driving Sends) on a real msg.Box with MaxInFlightTopicsBySender 2..5 and a virtual epoch clock, compared step by step with a reference model written from the statement (must-deliver / must-not-deliver / either); plus excess traffic (over the per-topic and the topic limit) on topics of 0..40 bytes, which must be dropped without failing the call (a panic kills the child and is reported by the parent) and leave the box serving; distinct key = history content hash; non-trivial when the history exceeds a limit, contains an expiry or churns more than limit+1 topics"
 	p.Assumptions = append(p.Assumptions, "the per-sender per-topic limit is the constant 100 of msgbox.go; bands: limit..limit+1 and expired-but-not-yet-swept are 'either'; expiry is judged only after three GC-driving Sends spaced by more than the expiry")
+	if e.Mine(0) {
+		// topics that are not 32-byte digests: more than limit+1 distinct unstarted topics of one sender that are longer than 32 bytes
+		// and differ only after byte 32, shorter ones that differ only by trailing zero bytes, and one-byte differences at the end
+		for _, fam := range []string{"common 32-byte prefix, differing suffix", "trailing zero bytes", "differing last byte of 32"} {
+			const L = 3
+			h := &boxHandler{}
+			b := &msg.Box{Logger: common.Nolog{}, MaxInFlightTopicsBySender: L, GCSweep: time.Hour, GCExpire: 10 * time.Hour,
+				NewTicker: time.NewTicker, ForwardSend: func(uint8, []byte, []byte, ...tss.UniversalID) {}, MessageHandler: h}
+			var topics [][]byte
+			for k := 0; k < 40; k++ {
+				base := bytes.Repeat([]byte{0x42}, 32)
+				switch fam {
+				case "common 32-byte prefix, differing suffix":
+					topics = append(topics, append(base, []byte(fmt.Sprintf("/%d", k))...))
+				case "trailing zero bytes":
+					topics = append(topics, append(base[:8], make([]byte, k)...))
+				default:
+					base[31] = byte(k)
+					topics = append(topics, base)
+				}
+			}
+			for k, t := range topics {
+				b.HandleMessage(&tss.IncMessage{MsgType: uint8(tss.MsgTypeMPC), Topic: t, Source: 7, Data: []byte(fmt.Sprintf("x%d", k))})
+			}
+			released := 0
+			for _, t := range topics {
+				h.mu.Lock()
+				before := len(h.log)
+				h.mu.Unlock()
+				b.Send(uint8(tss.MsgTypeMPC), t, []byte("out"), 9)
+				h.mu.Lock()
+				if len(h.log) > before {
+					released++
+				}
+				h.mu.Unlock()
+			}
+			b.Stop()
+			key := "40 unstarted topics of one sender, " + fam
+			p.Begin(key)
+			p.Case(key, true)
+			p.Count("unusual_topic_families", 1)
+			if released > L+1 {
+				p.Violate("limit-exceeded/topics-per-sender/unusual-topics", fmt.Sprintf("%s: messages of the sender were released for %d topics that were all unstarted at the same time; the topic limit is %d (+1)", key, released, L), nil)
+			}
+		}
+	}
 	var hists []c15hist
 	for L := 2; L <= 5; L++ {
 		for _, ratio := range []int{2, 4, 7} {
